@@ -53,6 +53,7 @@ class Body:
         self._mutborrowed = None
         self._origin_memo = {}
         self._dom = None
+        self._const_sw = None
 
     # -- basic accessors
     def term(self, bb):
@@ -79,9 +80,16 @@ class Body:
         if k == "goto":
             out.append((t["target"], "goto"))
         elif k == "switch":
+            only = self._const_sw.get(bb, False) if self._const_sw is not None else False
+            if only is False:
+                if self._const_sw is None:
+                    self._const_sw = {}
+                only = self._const_sw[bb] = const_switch_target(self, bb)
             for v, b in t["arms"]:
-                out.append((b, ("sw", v)))
-            out.append((t["otherwise"], ("sw", "otherwise")))
+                if only is None or b == only:
+                    out.append((b, ("sw", v)))
+            if only is None or t["otherwise"] == only:
+                out.append((t["otherwise"], ("sw", "otherwise")))
         elif k == "call":
             if t["target"] is not None:
                 out.append((t["target"], "ret"))
@@ -335,6 +343,24 @@ class Body:
         return [self.origin_operand(a) for a in t["args"]]
 
 
+def pointee(ty):
+    """the type behind any number of &, *const/*mut and NonNull wrappers"""
+    ty = ty.strip()
+    while True:
+        if ty.startswith("&"):
+            ty = ty[1:].strip()
+            if ty.startswith("'"):
+                ty = ty.split(" ", 1)[1] if " " in ty else ty
+            if ty.startswith("mut "):
+                ty = ty[4:]
+        elif ty.startswith("*const ") or ty.startswith("*mut "):
+            ty = ty.split(" ", 1)[1]
+        elif ty.startswith("core::ptr::non_null::NonNull<") and ty.endswith(">"):
+            ty = ty[len("core::ptr::non_null::NonNull<"):-1]
+        else:
+            return ty.strip()
+
+
 def callee_name(t):
     """Best name for the function actually invoked by call terminator t."""
     if t.get("resolved") and t.get("inst_def"):
@@ -346,10 +372,22 @@ def callee_key(t):
     return t.get("local_key")
 
 
+_INHERENT_IMPL = __import__("re").compile(r"(?:[A-Za-z_][A-Za-z_0-9]*::)+<impl ((?:[A-Za-z_][A-Za-z_0-9]*::)*[A-Za-z_][A-Za-z_0-9]*)>::")
+
+
+_FOREIGN_ROOTS = ("core", "alloc", "std", "serde", "serde_core", "arbitrary", "castaway", "itoa", "ryu")
+
+
 class Facts:
     def __init__(self, path):
         with open(path) as f:
-            self.j = json.load(f)
+            txt = f.read()
+        # An inherent impl written in another module than its type (`impl Repr { .. }` inside
+        # repr/buffer_access.rs) is printed `repr::buffer_access::<impl repr::Repr>::f` by the
+        # compiler; the function it defines is the same `Repr::f`.  Name it by its type, so that
+        # moving an impl block between modules does not rename anything.
+        txt = _INHERENT_IMPL.sub(lambda m: m.group(0) if m.group(0).split("::", 1)[0] in _FOREIGN_ROOTS else m.group(1) + "::", txt)
+        self.j = json.loads(txt)
         self.path = path
         self.config = self.j["config"]
         self.bodies = {b["path"]: Body(b, self) for b in self.j["bodies"]}
@@ -413,11 +451,99 @@ def is_debug_only_switch(body, bb):
         return False
     d = t["discr"]
     if "c" in d and "scalar" in d["c"] and d["c"]["ty"] == "bool":
-        return expn_has(t, "debug_assert", "cfg")
+        return _debug_cfg(t)
     if "rtc" in d:
         return True
     # `_n = const true; switchInt(move _n)`
     e = body.origin_operand(d)
     if e[0] == "const" and e[1] == "bool":
-        return expn_has(t, "debug_assert", "cfg")
+        return _debug_cfg(t)
     return False
+
+
+def _debug_cfg(t):
+    """the constant comes from debug_assert*! or cfg!(debug_assertions) - not from another
+    configuration predicate such as cfg!(feature = "std"), whose arms are ordinary code"""
+    if expn_has(t, "debug_assert"):
+        return True
+    if expn_has(t, "cfg"):
+        src = t.get("cfgsrc")
+        return src is None or any(x == "cfg!(debug_assertions)" for x in src)
+    return False
+
+
+def const_switch_target(body, bb):
+    """a switch on a compile-time constant that is not a debug-assertion test (cfg!(feature = ..),
+    cfg!(target_..), a const item): only one arm exists in this configuration -> its target"""
+    t = body.term(bb)
+    if t["k"] != "switch" or is_debug_only_switch(body, bb):
+        return None
+    d = t["discr"]
+    v = None
+    if "c" in d and "scalar" in d["c"]:
+        v = d["c"]["scalar"]
+    elif "mv" in d or "cp" in d:
+        pl = d.get("mv") or d.get("cp")
+        if not pl["p"]:
+            # `_n = const X; switchInt(move _n)` in the same block
+            for s in reversed(body.blocks[bb]["stmts"]):
+                if s["k"] == "assign" and s["lhs"]["l"] == pl["l"] and not s["lhs"]["p"]:
+                    rv = s["rv"]
+                    if rv["k"] == "use" and "c" in rv["a"] and "scalar" in rv["a"]["c"]:
+                        v = rv["a"]["c"]["scalar"]
+                    break
+    if v is None:
+        # a comparison of compile-time quantities (`size_of::<T>() <= 4` in a macro-generated impl)
+        try:
+            v = static_int(body, body.origin_operand(d))
+        except RecursionError:
+            v = None
+        if isinstance(v, bool):
+            v = int(v)
+    if v is None:
+        return None
+    for av, ab in t["arms"]:
+        if av == v:
+            return ab
+    return t["otherwise"]
+
+
+_PRIM_SIZE = {"u8": 1, "i8": 1, "bool": 1, "u16": 2, "i16": 2, "u32": 4, "i32": 4, "char": 4, "f32": 4, "u64": 8, "i64": 8, "f64": 8, "u128": 16, "i128": 16}
+
+
+def static_int(body, e, depth=0):
+    """value of an expression built only from literals and size_of/align_of of closed types"""
+    e = strip_refs(e)
+    if depth > 8:
+        return None
+    k = e[0]
+    if k == "const":
+        return e[2] if isinstance(e[2], int) else None
+    if k == "cast" and e[1] == "IntToInt":
+        return static_int(body, e[2], depth + 1)
+    if k == "call":
+        t = body.term(e[1])
+        n = callee_name(t)
+        ga = t.get("generic_args", [])
+        if n in ("core::mem::size_of", "core::mem::align_of") and len(ga) == 1 and not t["args"]:
+            ty = ga[0]
+            if ty in ("usize", "isize"):
+                return body.facts.ptr_bytes
+            if ty in _PRIM_SIZE:
+                sz = _PRIM_SIZE[ty]
+                if n.endswith("align_of"):
+                    # u64/u128/f64 alignment is target dependent: not decided here
+                    return sz if sz <= 4 else None
+                return sz
+            lay = body.facts.layouts.get(ty)
+            if lay:
+                return lay["size"] if n.endswith("size_of") else lay["align"]
+        return None
+    if k == "bin":
+        a, b = static_int(body, e[2], depth + 1), static_int(body, e[3], depth + 1)
+        if a is None or b is None:
+            return None
+        import operator as op
+        f = {"Le": op.le, "Lt": op.lt, "Ge": op.ge, "Gt": op.gt, "Eq": op.eq, "Ne": op.ne, "Add": op.add, "Sub": op.sub, "Mul": op.mul}.get(e[1])
+        return f(a, b) if f else None
+    return None
